@@ -104,7 +104,7 @@ func settle(before int) int {
 	return n
 }
 
-// case: kind (p|e) \t input(hex) \t vars(name=value hex, comma; eval only) \t seeds
+// case: kind (p|e) \t input(hex) \t vars(name=value hex, comma; eval) or index at which the source starts failing (parse) \t seeds
 // out : ok n=<runs> | FAIL:<what>
 func schedH(line string) string {
 	f := strings.Split(line, "\t")
@@ -113,7 +113,11 @@ func schedH(line string) string {
 	run := func() string {
 		switch f[0] {
 		case "p":
-			rs := &runeScanner{s: in, prev: -1, failAt: -1}
+			rs := &runeScanner{s: in, prev: -1, failAt: -1, err: errInjected}
+			if f[2] != "" {
+				// the source starts failing at this rune index
+				rs.failAt, _ = strconv.Atoi(f[2])
+			}
 			before := runtime.NumGoroutine()
 			cmds, comments, err := parser.ParseCommands(nil, "t", rs)
 			after := settle(before)
